@@ -1,4 +1,4 @@
-import ActixModel.Proofs.DispTimersC
+import ActixModel.Proofs.DispTimersF
 /-
 C06 — HTTP/1 connections are time-bounded (slow head, keep-alive, shutdown, drain).
 Model: `ActixModel/Model/DispTimers.lean` (one event = one `Dispatcher::poll` with the answers of
@@ -43,20 +43,25 @@ theorem C06_debug_asserts_hold {c : Cfg} {sig : Bool} {s : St} (h : Reach c sig 
 
 /-! ### sentence 3: with a disconnect timeout, shutdown never outlasts it -/
 
-/-- states reachable by polls whose cached clock never goes backwards; the index is the cached
-clock of the latest poll -/
-inductive ReachT (c : Cfg) (sig : Bool) : Nat → St → Prop
-  | init : ReachT c sig 0 (St.init c sig)
-  | step {tc : Nat} {s : St} (i : In) : ReachT c sig tc s → tc ≤ i.cached → ReachT c sig i.cached (poll c s i).s
+/-- states reachable by polls whose cached clock never goes backwards; `t0` = cached clock when the
+connection was created, the last index = cached clock of the latest poll -/
+inductive ReachT (c : Cfg) (sig : Bool) (t0 : Nat) : Nat → St → Prop
+  | init : ReachT c sig t0 t0 (St.init c sig)
+  | step {tc : Nat} {s : St} (i : In) : ReachT c sig t0 tc s → tc ≤ i.cached → ReachT c sig t0 i.cached (poll c s i).s
 
-theorem ReachT.reach {c : Cfg} {sig : Bool} {tc : Nat} {s : St} (h : ReachT c sig tc s) : Reach c sig s := by
+theorem ReachT.reach {c : Cfg} {sig : Bool} {t0 tc : Nat} {s : St} (h : ReachT c sig t0 tc s) : Reach c sig s := by
   induction h with
   | init => exact Reach.init
   | step i _ _ ih => exact Reach.step i ih
 
+theorem ReachT.le {c : Cfg} {sig : Bool} {t0 tc : Nat} {s : St} (h : ReachT c sig t0 tc s) : t0 ≤ tc := by
+  induction h with
+  | init => exact Nat.le_refl _
+  | step i _ hle ih => omega
+
 /-- the shutdown timer's deadline is never later than `D` after the cached clock of the latest poll
 (it is `cached + D` of the poll that armed it; fix d7d4f66 removed the re-arming) -/
-theorem C06_shutdown_deadline {c : Cfg} {sig : Bool} {tc : Nat} {s : St} (h : ReachT c sig tc s) :
+theorem C06_shutdown_deadline {c : Cfg} {sig : Bool} {t0 tc : Nat} {s : St} (h : ReachT c sig t0 tc s) :
     ∀ d, s.sdTimer = .active d → c.D ≠ 0 ∧ d ≤ tc + c.D := by
   induction h with
   | init => intro d hd; simp [St.init, Timer.new] at hd; split at hd <;> simp at hd
@@ -72,7 +77,7 @@ timer is running with a deadline `≤ t + D`, and *whatever happens afterwards* 
 with `poll_flush` / `poll_shutdown` Pending for ever, bytes or EOF arriving, any clock values — the
 connection future is complete after the first poll at or after `t + D`.  (tokio wakes the task at
 the deadline: trusted, observed by the harness.)  False before fixes d7d4f66 / 393d1a8 (F13, F14). -/
-theorem C06_shutdown_bounded {c : Cfg} {sig : Bool} {tc : Nat} {s : St} (h : ReachT c sig tc s) (hD : c.D ≠ 0)
+theorem C06_shutdown_bounded {c : Cfg} {sig : Bool} {t0 tc : Nat} {s : St} (h : ReachT c sig t0 tc s) (hD : c.D ≠ 0)
     (i : In) (hc : tc ≤ i.cached) (hcl : i.cached ≤ i.now)
     (h1 : (poll c s i).s.complete = false) (h2 : (poll c s i).s.shutdown = true)
     (h3 : (poll c s i).s.linger = false) (h4 : (poll c s i).selfWake = false) :
@@ -98,7 +103,7 @@ theorem C06_shutdown_bounded {c : Cfg} {sig : Bool} {tc : Nat} {s : St} (h : Rea
 the timer runs with a deadline `d ≤ t + D`; at the first poll at or after `d` LINGER is over, and one
 more `D` after that poll the connection is complete — whatever the peer does, including never
 reading the response (fix 0ec2d32) and never closing. -/
-theorem C06_linger_bounded {c : Cfg} {sig : Bool} {tc : Nat} {s : St} (h : ReachT c sig tc s) (hD : c.D ≠ 0)
+theorem C06_linger_bounded {c : Cfg} {sig : Bool} {t0 tc : Nat} {s : St} (h : ReachT c sig t0 tc s) (hD : c.D ≠ 0)
     (i : In) (hc : tc ≤ i.cached) (hcl : i.cached ≤ i.now)
     (h1 : (poll c s i).s.complete = false) (h3 : (poll c s i).s.linger = true)
     (h4 : (poll c s i).selfWake = false) :
@@ -121,6 +126,107 @@ theorem C06_linger_bounded {c : Cfg} {sig : Bool} {tc : Nat} {s : St} (h : Reach
     intro pre j post hm hcl' hdj hk
     exact run_lingering c d hD pre _ i.now j post (poll_inv c s i (C06_invariant h.reach))
       (Or.inr (Or.inl ⟨h3, hsd, h1⟩)) hm hcl' hdj hk
+
+/-! ### sentences 1 and 2: the request (head) timer and the keep-alive timer -/
+
+/-- **deadlines.**  In every reachable state the head timer's deadline is `cached + T` and the
+keep-alive timer's deadline is `cached + K` of some earlier poll: not earlier than `t0 + timeout`
+(`t0` = cached clock at connection creation), not later than `latest cached + timeout`.  With
+`cached ≤ now ≤ cached + skew` this is "at the timeout, up to `skew` early, never late". -/
+theorem C06_timer_deadlines {c : Cfg} {sig : Bool} {t0 tc : Nat} {s : St} (h : ReachT c sig t0 tc s) :
+    (∀ d, s.headTimer = .active d → c.T ≠ 0 ∧ t0 + c.T ≤ d ∧ d ≤ tc + c.T) ∧
+    (∀ d, s.kaTimer = .active d → ∃ k, c.ka = .ms k ∧ t0 + k ≤ d ∧ d ≤ tc + k) := by
+  induction h with
+  | init =>
+    constructor
+    · intro d hd; simp [St.init, Timer.new] at hd; split at hd <;> simp at hd
+    · intro d hd; simp [St.init, Timer.new] at hd; split at hd <;> simp at hd
+  | @step tc' s' i hr hle ih =>
+    have ht := poll_tstep c s' i
+    have h0 := hr.le
+    constructor
+    · intro d hd
+      rcases ht.1 d hd with h | ⟨hT, h⟩
+      · have := ih.1 d h; exact ⟨this.1, this.2.1, by omega⟩
+      · exact ⟨hT, by omega, by omega⟩
+    · intro d hd
+      rcases ht.2 d hd with h | ⟨k, hk, h⟩
+      · obtain ⟨k, hk, h1, h2⟩ := ih.2 d h; exact ⟨k, hk, h1, by omega⟩
+      · exact ⟨k, hk, by omega, by omega⟩
+
+/-- **C06_slow_head (never before).**  Before the head timer's deadline `poll_head_timer` is the
+identity: no 408, no SHUTDOWN from it.  (`send_error_response(408)` occurs nowhere else in the
+dispatcher; in the model `pollHeadTimer` is the only place status 408 is produced.) -/
+theorem C06_slow_head_not_before (c : Cfg) (i : In) (s : St) (d : Nat)
+    (hk : s.headTimer = .active d) (hd : i.now < d) : pollHeadTimer c i s = s :=
+  pollHeadTimer_waits c i s d hk hd
+
+/-- **C06_slow_head (at/after the deadline).**  If no request head has been decoded (the head
+timer is still running) and a poll happens at or after the deadline, then a 408 with
+`Content-Length: 0` is queued behind whatever is in the write buffer, the timer is cleared (so
+there is exactly one 408: fix a62d374), and the poll ends with SHUTDOWN set. -/
+theorem C06_slow_head_fires {c : Cfg} {sig : Bool} {s : St} (h : Reach c sig s) (i : In) (d : Nat)
+    (hc : s.complete = false) (hk : s.headTimer = .active d) (hd : d ≤ i.now) :
+    (poll c s i).s.shutdown = true ∧
+    (s.draining = false → ∃ cl, (pollHeadTimer c i s).writeBuf = s.writeBuf ++ [Out.head 408 cl, Out.bodyEnd] ∧
+      (pollHeadTimer c i s).headTimer = .inactive) := by
+  refine ⟨poll_head_expiry c s i d hc hk hd, fun hdr => ?_⟩
+  obtain ⟨cl, h1, _, h3⟩ := pollHeadTimer_fires c i s d (C06_invariant h) hdr hk hd
+  exact ⟨cl, h1, h3⟩
+
+/-- **C06_keepalive (not before).**  Before the keep-alive deadline `poll_ka_timer` does nothing;
+together with `kaCancel` (l.1327: bytes read ⇒ KEEP_ALIVE and the timer are cleared before
+`poll_request` runs) a request that arrives before the deadline is decoded and dispatched by the
+ordinary request path. -/
+theorem C06_keepalive_not_before {c : Cfg} {sig : Bool} {s : St} (h : Reach c sig s) (i : In) (d : Nat)
+    (hk : s.kaTimer = .active d) (hd : i.now < d) : pollKaTimer c i s = some s :=
+  pollKaTimer_waits c i s d (C06_invariant h) hk hd
+
+/-- **C06_keepalive (idle ⇒ shutdown at/after the deadline).**  A poll at or after the keep-alive
+deadline ends with SHUTDOWN set, whether or not bytes arrive in the same poll (timers are polled
+before the socket is read). -/
+theorem C06_keepalive_expiry {c : Cfg} {sig : Bool} {s : St} (h : Reach c sig s) (i : In) (d : Nat)
+    (hc : s.complete = false) (hk : s.kaTimer = .active d) (hd : d ≤ i.now)
+    (hsig : ¬ (s.graceful = true ∧ i.sig = true)) : (poll c s i).s.shutdown = true :=
+  poll_ka_expiry c s i d (C06_invariant h) hc hk hd hsig
+
+/-- the keep-alive timer runs only while the connection is idle: nothing in flight, nothing queued,
+request body fully read, not draining -/
+theorem C06_keepalive_timer_means_idle {c : Cfg} {sig : Bool} {s : St} (h : Reach c sig s)
+    (hk : s.kaTimer.isActive = true) :
+    s.keepAlive = true ∧ s.st = .none ∧ s.messages = [] ∧ s.payload = none ∧ s.draining = false := by
+  have hi := C06_invariant h
+  have hka := hi.kaT hk
+  obtain ⟨a, b, c', d, _⟩ := hi.core.ka hka
+  exact ⟨hka, a, b, c', d⟩
+
+/-! ### sentence 4: graceful shutdown -/
+
+/-- **C06_graceful (queued and later requests are not started).**  In the poll in which the
+graceful-shutdown future becomes ready, and in every later poll, no handler is called — whatever
+is buffered, queued or still arrives — and DRAINING stays set until the connection completes. -/
+theorem C06_graceful_no_new_requests {c : Cfg} {sig : Bool} {s : St} (h : Reach c sig s) (i : In)
+    (hd : s.draining = true ∨ (s.graceful = true ∧ i.sig = true)) :
+    NoCall (poll c s i).outs ∧ ((poll c s i).s.complete = true ∨ (poll c s i).s.draining = true) :=
+  poll_draining c s i (C06_invariant h) hd
+
+/-- **C06_graceful (the in-flight request is still answered, with `Connection: close`).**  While
+DRAINING, when the handler of the in-flight request completes, the response loop turns it into a
+response whose head carries `connection: close` (appended to the write buffer). -/
+theorem C06_graceful_inflight_answered (c : Cfg) (i : In) (s : St) (rid : Nat) (kind : ReqKind) (body : BodyKind)
+    (hd : s.draining = true) (hst : s.st = .service rid kind) (hr : i.hReady rid = some body) :
+    ∃ s' rest, respStep c i s = .next s' [] ∧ s'.writeBuf = s.writeBuf ++ Out.head 200 true :: rest := by
+  refine ⟨sendResponse c (dropReceiver s rid) rid 200 body, ?_⟩
+  have hf := dropReceiver_fields s rid
+  have hdr : (dropReceiver s rid).draining = true := by rw [hf.2.2.2.1]; exact hd
+  cases body
+  · refine ⟨[Out.bodyEnd], by simp [respStep, hst, hr], ?_⟩
+    simp [sendResponse, hdr, hf.2.2.2.2.1, finishResponse, closeForUnread, enterLinger]
+    split <;> (try split) <;> simp
+  · refine ⟨[], by simp [respStep, hst, hr], ?_⟩
+    simp [sendResponse, hdr, hf.2.2.2.2.1]
+  · refine ⟨[], by simp [respStep, hst, hr], ?_⟩
+    simp [sendResponse, hdr, hf.2.2.2.2.1]
 
 /-- non-vacuity: `GET` with `Connection: close` at t = 0, transport whose `poll_shutdown` pends:
 the hypotheses of `C06_shutdown_bounded` hold (this is the F14 replay) -/
